@@ -469,8 +469,10 @@ def finish(ctx, level='model_checking', rule='', extra=None):
     cov['transitions'] = max(1, cov['transitions'])
     ev = dict(property_id=ctx.pid, tier=ctx.tier, seed=ctx.seed, level=level, coverage=cov,
               assumptions=ctx.assumptions, wall_s=round(time.time() - ctx.t0, 1), violations=len(ctx.violations))
-    os.makedirs(os.path.join(VERIF, 'evidence'), exist_ok=True)
-    with open(os.path.join(VERIF, 'evidence', ctx.pid + '.json'), 'w') as f:
+    # trial runs against a scratch tree (tools/trymutant.sh) must not overwrite the evidence of the real tree
+    evdir = os.environ.get('VERIF_EVIDENCE_DIR') or os.path.join(VERIF, 'evidence')
+    os.makedirs(evdir, exist_ok=True)
+    with open(os.path.join(evdir, ctx.pid + '.json'), 'w') as f:
         json.dump(ev, f, indent=1, sort_keys=True)
     for k in ctx.known:
         print('KNOWN-FINDING: property=%s %s: %s' % (ctx.pid, k['id'], k['what']))
